@@ -11,6 +11,8 @@
 (*  {"ev":"mol","tid","cid","c","reads":[{"mate":1|2,"rev":bool,"blocks":[[bs,be]..]}..],"stranded":"none"|"false"|"true", *)
 (*   "m","res":[..],"genes":[..],"raised":""}   FeatureAnnotatedMolecule.annotate(method=m) on one fragment:    *)
 (*   res = features behind the keys of .hits, genes = features behind .genes after set_intron_exon_features()   *)
+(*  an event with a field "soft":"<reason>" is an observation of a call variant outside the documented API       *)
+(*  (findFeaturesAt(optim=<anything but bdbnb/nb/optim>)): a failing verdict is reported as @@NOTE soft_..., never rejected *)
 (* `clean[cid]` = no add since the last explicit sort(): findFeaturesBetween and                   *)
 (* findFeaturesAtPysamAlign do not sort themselves, so calling them on a container that was not    *)
 (* re-indexed is outside the add*/sort/query* pattern of the statement (noted, not judged);         *)
@@ -96,7 +98,9 @@ TNext ==
            fresh == l = 1 \/ Log[l - 1].tid # e.tid
            b0 == IF fresh THEN EmptyBags ELSE bag
            c0 == IF fresh THEN AllClean ELSE clean
-       IN /\ Judge(l, Verdict(b0[e.cid], c0[e.cid], e))
+       IN /\ (IF Has(e, "soft") /\ Verdict(b0[e.cid], c0[e.cid], e) # "ok"      \* observed-only call variants (see docs): never an alarm
+              THEN Note(l, e.tid, "soft_" \o e.soft \o "_" \o Verdict(b0[e.cid], c0[e.cid], e))
+              ELSE Judge(l, Verdict(b0[e.cid], c0[e.cid], e)))
           /\ Notes(l, b0[e.cid], c0[e.cid], e)
           /\ IF e.ev = "add"
              THEN /\ bag' = [b0 EXCEPT ![e.cid] = Append(@, << e.c, << e.f[1], e.f[2], e.f[3], e.f[4] >> >>)]
